@@ -166,3 +166,35 @@ func VfC05Write() {
 }
 
 func vfAddr5() (a [16]byte) { copy(a[:], vf.Bytes(16)); return }
+
+// VfC05ReadBlock: the framing layer under both the handshake and the encrypted
+// link. Whatever pieces the connection delivers the bytes in: a length-prefixed
+// block of EVERY announced length 4..65535 that arrives completely is handed up,
+// exactly as long as announced and byte-identical to what was on the wire - in
+// particular lengths that equal a pooled-buffer class exactly; it is discarded
+// only for an I/O error or an impossible length (<= 3). (A discarded block is
+// a frame silently lost: a peering request of the wrong size would keep two
+// routers from ever peering.)
+func VfC05ReadBlock() {
+	conn := &vfConn{readsLeft: vf.Param("reads")}
+	link, _ := vfLinkFor(conn, false)
+	data, err := link.readLengthAndData()
+	netErr := err != nil && errors.Is(err, ErrNetworkReadError)
+	dataLen := int(conn.first[0])<<8 | int(conn.first[1])
+	if netErr || conn.total < 2 {
+		vf.Reach("io-error")
+		return
+	}
+	if dataLen <= 3 {
+		vf.Assert(err != nil, "impossible-length-accepted")
+		vf.Reach("bad-length")
+		return
+	}
+	vf.Assert(err == nil, "complete-block-of-admissible-length-discarded")
+	if err != nil {
+		return
+	}
+	vf.Assert(len(data) == dataLen && conn.total == dataLen, "block-length-differs-from-announced")
+	vf.Assert(data[0] == conn.first[0] && data[1] == conn.first[1], "length-prefix-not-kept")
+	vf.Reach("handed-up")
+}
